@@ -154,6 +154,18 @@ def _atoms(lits):
     return out
 
 
+def norm_dim_early(shp, d):
+    """(expr).shape[k] -> dimension k of expr, when the shape of expr is known"""
+    da = d.single_atom() if isinstance(d, Poly) else None
+    if da is not None and da[0] == 'idx' and da[1][0] == 'attr' and da[1][2] == 'shape' \
+            and isinstance(da[2], Poly) and da[2].const_value() is not None and da[1][1][0] != 'sym':
+        base = da[1][1]
+        inner = shp.of(base[1]) if base[0] == 'val' else shp.atom(base)
+        if inner is not None and int(da[2].const_value()) < len(inner):
+            return norm_dim_early(shp, inner[int(da[2].const_value())])
+    return d
+
+
 def helper_rules(chk, repo):
     shape, shift = pair('shape'), pair('shift')
     # subarray ≡ array_extent(shape, shift, parent=a.shape)
@@ -348,22 +360,34 @@ def centroid_rule(chk, repo, clause):
             prods = sorted([a for a in nf.value_atoms(comp) if is_app(a, ('dot', 'sum', 'vdot', 'inner'))], key=nf.akey)
             cands = []
             for a in prods:
-                if a[1] in ('dot', 'vdot', 'inner') and len(a[2]) >= 2:
-                    cands += [(a[2][0], a[2][1], a), (a[2][1], a[2][0], a)]
+                if a[1] in ('dot', 'vdot', 'inner', 'matmul') and len(a[2]) >= 2:
+                    cands += [(a[2][0], a[2][1], a, 0), (a[2][1], a[2][0], a, 1)]
                 elif a[1] == 'sum' and isinstance(a[2][0], Poly) and len(a[2][0].terms) == 1:
                     mono = a[2][0].terms[0][0]
                     for at, e in mono:
                         if not uses_outside_shape(Poly.atom(at), 'img'):
-                            cands.append((Poly.atom(at).pow(e), a[2][0] / Poly.atom(at).pow(e), a))
-            for W, V, src in sorted(cands, key=lambda t: nf.vkey(t[0])):
+                            cands.append((Poly.atom(at).pow(e), a[2][0] / Poly.atom(at).pow(e), a, None))
+            for W, V, src, pos in sorted(cands, key=lambda t: nf.vkey(t[0])):
                 if uses_outside_shape(W, 'img') or not uses_outside_shape(V, 'img'):
                     continue
                 Wg = nf.strip_apps(W, ('m:ravel', 'm:flatten', 'copy', 'cast'))
                 try:
                     shp = Shapes(declare_2d('img'), assume_scalar=True)
-                    el = ElemEval(shp).at(Wg, (i_, j_))
                     wshape = shp.of(Wg)
                     ishape = shp.of(S('img'))
+                    if pos is not None and wshape is not None and len(wshape) == 1 and ishape is not None and len(ishape) == 2:
+                        # a vector times the image as a matrix product: dot(w, M) weights row i with w[i] (contracts the rows),
+                        # dot(M, w) weights column j with w[j]; the vector left over is summed by the enclosing sum
+                        vshape = shp.of(V)
+                        if vshape is not None and len(vshape) == 2:
+                            idx_ = i_ if pos == 0 else j_
+                            el = ElemEval(shp).at(Wg, (idx_,))
+                            wshape = tuple(ishape[k] if k == pos else ishape[k] for k in (0, 1)) if \
+                                norm_dim_early(shp, wshape[0]) == norm_dim_early(shp, ishape[pos]) else wshape
+                        else:
+                            el = ElemEval(shp).at(Wg, (i_, j_))
+                    else:
+                        el = ElemEval(shp).at(Wg, (i_, j_))
                 except Unsupported as ex:
                     det = f'undecided: weight grid not understood element-wise ({ex})'
                     continue
@@ -381,7 +405,8 @@ def centroid_rule(chk, repo, clause):
                     return d
                 same_shape = wshape is not None and ishape is not None and len(wshape) == 2 and \
                     all(norm_dim(a) == norm_dim(b) for a, b in zip(wshape, ishape))
-                ok = el == want and comp == Poly.atom(src) and same_shape
+                whole = comp == Poly.atom(src) or (pos is not None and comp in (nf.app('sum', Poly.atom(src)), nf.app('m:sum', Poly.atom(src))))
+                ok = el == want and whole and same_shape
                 det = f'weight[i, j] = {fmt(el)[:80]}, grid shape {tuple(map(fmt, wshape)) if wshape else "?"}' + \
                     ('' if ok else f'; image shape {tuple(map(fmt, ishape)) if ishape else "?"}; component = {fmt(comp)[:100]}')
                 break
